@@ -385,7 +385,8 @@ def run_range_geometry(ctx):
 def run(ctx):
     ctx.note('rule', 'one case = (old shape, new shape, offsets, pad mode, dtype/layout); the lattice per-axis '
                      '{grow, shrink, same} x offsets {0, max, interior} x 5 modes x ndim 1..3 is enumerated, plus seeded '
-                     'random shapes; inadmissible paddings (Appendix B) are skipped and counted; distinct = distinct tuples')
+                     'random shapes; inadmissible paddings (Appendix B) are skipped and counted; ResizingOperator range geometry for every '
+                     'nodes_on_bdry choice x split kind x grow/shrink; distinct = distinct tuples')
     from odl.util import numerics
     cov = cover.Cover()
     for f in ('resize_array', '_apply_padding', '_padding_slices_outer', '_padding_slices_inner', '_intersection_slice_tuples', '_assign_intersection'):
